@@ -315,7 +315,16 @@ def call_paths(case):
         kw["num_paths"] = case["num_paths"]
     if case.get("cutoff") is not None:
         kw["flux_cutoff"] = case["cutoff"]
-    ps, fl = tpt.paths(src, snk, F, **kw)
+    if case.get("style") == "positional":
+        # documented order: paths(sources, sinks, net_flux, remove_path, num_paths, flux_cutoff)
+        pos = [kw["remove_path"]]
+        if "num_paths" in kw or "flux_cutoff" in kw:
+            pos.append(kw.get("num_paths", np.inf))
+        if "flux_cutoff" in kw:
+            pos.append(kw["flux_cutoff"])
+        ps, fl = tpt.paths(src, snk, F, *pos)
+    else:
+        ps, fl = tpt.paths(src, snk, F, **kw)
     require(isinstance(fl, np.ndarray) and fl.ndim == 1, "fluxes is not a 1-d ndarray", got=type(fl))
     require(len(ps) == len(fl), "number of paths and number of fluxes differ", paths=len(ps), fluxes=len(fl))
     return ps, fl
@@ -347,6 +356,7 @@ def describe(case, ps=None, fl=None, extra=()):
           "cyclic=%s" % _cyclic(pos)]
     if "scheme" in case:
         cl.append("scheme=" + case["scheme"])
+        cl.append("style=" + case.get("style", "keyword"))
         cl.append("num_paths=%s" % ("default" if case.get("num_paths") is None else "given"))
         cl.append("cutoff=%s" % ("default" if case.get("cutoff") is None else
                                  "one" if case["cutoff"] == 1.0 else "fraction"))
@@ -443,6 +453,7 @@ def graph_case(draw, kinds=("conserved", "digraph", "perturbed"), nmax=9, with_s
             "container": draw(st.sampled_from(["list", "ndarray", "tuple"]))}
     if with_scheme:
         case["scheme"] = draw(st.sampled_from(schemes))
+        case["style"] = draw(st.sampled_from(["keyword", "keyword", "positional"]))
         case["num_paths"] = draw(st.sampled_from([None, None, None, 1, 2, 3, 5, 10]))
         c = draw(st.sampled_from([None, None, 1.0, 0.9, 0.5, 0.25, "draw"]))
         case["cutoff"] = draw(st.floats(0.05, 0.999)) if c == "draw" else c
@@ -597,7 +608,10 @@ def run_stopping(case):
     f = [float(x) for x in fl]
     cum = np.cumsum(f) / tot if k else np.array([])
     for j in range(k - 1):
-        require(cum[j] < cut + REL, "search continued although the requested flux fraction was already explained",
+        # the library stops as soon as its running sum of flux/total reaches the cutoff; re-adding the same quotients
+        # can differ by a few ulp only, so 1e-12 separates "continued past the cutoff" from round-off (the default
+        # cutoff 1 - 1e-10 exists precisely to absorb sums like 0.9999999999999999)
+        require(cum[j] < cut + 1e-12, "search continued although the requested flux fraction was already explained",
                 after_paths=j + 1, explained=float(cum[j]), cutoff=cut, fluxes=f, scheme=case["scheme"],
                 F=case["F"], sources=s, sinks=t)
     reason = "num_paths" if k >= N else "cutoff" if (k and cum[-1] >= cut - REL) else "exhausted"
